@@ -57,11 +57,12 @@ const ocUniverse = 5
 
 // TestOnChangeMap: a keyed store whose callbacks mirror every change. With callbacks enabled each
 // successful Add / Modify(returning true) / Delete runs the changed-callback with the current items and
-// then the matching item callback with the affected item; nothing else runs callbacks; a callback error is
-// returned to the caller (the change itself stays applied, as implemented); Get/All/Modify return clones.
+// then the matching item callback with the affected item - also when the changed-callback failed: the change stays
+// applied, so every registered callback has to hear about it -; nothing else runs callbacks; every callback error is
+// returned to the caller; Get/All/Modify return clones.
 func TestOnChangeMap(t *testing.T) {
 	const check = "onchangemap"
-	stats.Rule(check, "rapid state machine over onchangemap.OnChangeMap[int,id,*item], ids 0..4; which of the four callbacks are registered is drawn per history, CallbacksEnabled and failing-callback switches are actions; Add/Modify(true|false)/Delete/Get/All/ExecuteChangedCallback vs map id->value plus the exact expected callback log per call (changed-callback payload compared as a multiset), returned errors (errors.Is on the callback's error), clone isolation; non-trivial = callbacks fired for at least two kinds of change and at least one of {a callback failed, Modify returned false, a change ran with callbacks disabled}; distinct by (registered callbacks, operation list)")
+	stats.Rule(check, "rapid state machine over onchangemap.OnChangeMap[int,id,*item], ids 0..4; which of the four callbacks are registered is drawn per history, CallbacksEnabled and failing-callback switches are actions; Add/Modify(true|false)/Delete/Get/All/ExecuteChangedCallback vs map id->value plus the exact expected callback log per call (changed-callback payload compared as a multiset), returned errors (errors.Is on every failing callback's error; a failing changed-callback does not keep the item callback from mirroring the change), clone isolation; non-trivial = callbacks fired for at least two kinds of change and at least one of {a callback failed, Modify returned false, a change ran with callbacks disabled}; distinct by (registered callbacks, operation list)")
 	rapid.Check(t, func(rt *rapid.T) {
 		regChanged := rapid.IntRange(0, 4).Draw(rt, "regChanged") != 0
 		regAdded := rapid.IntRange(0, 4).Draw(rt, "regAdded") != 0
@@ -109,7 +110,10 @@ func TestOnChangeMap(t *testing.T) {
 
 		// expect computes the callback log and error a change of the given kind must produce, given the
 		// model state AFTER the change.
-		expect := func(kind string, registered bool, k, v int) (wantLog []string, wantErr error) {
+		// The change is applied (and kept) whatever the callbacks answer, so BOTH callbacks have to mirror it: a failing
+		// changed-callback must not keep the item callback from hearing about the change. Every callback error has to
+		// reach the caller.
+		expect := func(kind string, registered bool, k, v int) (wantLog []string, wantErrs []error) {
 			if !enabled {
 				h.label("change_with_callbacks_disabled")
 				return nil, nil
@@ -119,27 +123,32 @@ func TestOnChangeMap(t *testing.T) {
 				wantLog = append(wantLog, "changed"+ocRenderModel(model))
 				if failChanged {
 					h.label("changed_callback_failed")
-					return wantLog, errOCChanged
+					wantErrs = append(wantErrs, errOCChanged)
 				}
 			}
 			if registered {
 				wantLog = append(wantLog, fmt.Sprintf("%s(%d=%d)", kind, k, v))
 				if failItem {
 					h.label("item_callback_failed")
-					return wantLog, errOCItem
+					wantErrs = append(wantErrs, errOCItem)
+				}
+				if regChanged && failChanged {
+					h.label("item_callback_after_failed_changed_callback")
 				}
 			}
-			return wantLog, nil
+			return wantLog, wantErrs
 		}
-		compare := func(rt *rapid.T, what string, err error, wantLog []string, wantErr error) {
+		compare := func(rt *rapid.T, what string, err error, wantLog []string, wantErrs []error) {
 			if !equalStrings(log, wantLog) {
-				h.fail(rt, "%s ran callbacks %v, want %v", what, log, wantLog)
+				h.fail(rt, "%s ran callbacks %v, want %v (a change that is kept has to reach every registered callback)", what, log, wantLog)
 			}
-			if wantErr == nil && err != nil {
+			if len(wantErrs) == 0 && err != nil {
 				h.fail(rt, "%s returned error %q, want nil", what, err)
 			}
-			if wantErr != nil && !errors.Is(err, wantErr) {
-				h.fail(rt, "%s returned error %v, want an error wrapping %q", what, err, wantErr)
+			for _, wantErr := range wantErrs {
+				if !errors.Is(err, wantErr) {
+					h.fail(rt, "%s returned error %v, want an error wrapping %q", what, err, wantErr)
+				}
 			}
 		}
 
@@ -185,7 +194,7 @@ func TestOnChangeMap(t *testing.T) {
 				h.fail(rt, "Modify(%d): modifier called %d times and saw value %d, want 1 call seeing %d", k, cbCalls, cbSaw, old)
 			}
 			var wantLog []string
-			var wantErr error
+			var wantErr []error
 			if doModify {
 				model[k] = v
 				wantLog, wantErr = expect("modified", regModified, k, v)
@@ -258,11 +267,11 @@ func TestOnChangeMap(t *testing.T) {
 			err := m.ExecuteChangedCallback()
 			h.op("ExecuteChangedCallback() err=%v cb=%v", err != nil, log)
 			var wantLog []string
-			var wantErr error
+			var wantErr []error
 			if enabled && regChanged {
 				wantLog = []string{"changed" + ocRenderModel(model)}
 				if failChanged {
-					wantErr = errOCChanged
+					wantErr = []error{errOCChanged}
 				}
 			}
 			compare(rt, "ExecuteChangedCallback", err, wantLog, wantErr)
